@@ -108,3 +108,32 @@ def universe_of(ops_list, extra=()):
             seen.add(k)
             u.append(k)
     return u
+
+
+def gen_multi_history(rng, keys, n_sk, n_ev, p_merge=0.12, p_saveload=0.06, **opkw):
+    """Events on up to n_sk same-shaped sketches: [i, op] | ["merge", dst, src] | ["saveload", i, shm, via_module]."""
+    events = []
+    for _ in range(n_ev):
+        r = rng.random()
+        if n_sk > 1 and r < p_merge:
+            a = int(rng.integers(0, n_sk))
+            b = int(rng.integers(0, n_sk - 1))
+            if b >= a:
+                b += 1
+            events.append(["merge", a, b])
+        elif r < p_merge + p_saveload:
+            events.append(["saveload", int(rng.integers(0, n_sk)), bool(rng.random() < 0.3), bool(rng.random() < 0.5)])
+        else:
+            events.append([int(rng.integers(0, n_sk)), gen_op(rng, keys, **opkw)])
+    return events
+
+
+def final_merge_tree(rng, n_sk):
+    """Random merge tree combining all sketches into one; returns (events, index of the survivor)."""
+    alive = list(range(n_sk))
+    events = []
+    while len(alive) > 1:
+        i, j = (int(x) for x in rng.choice(len(alive), 2, replace=False))
+        events.append(["merge", alive[i], alive[j]])
+        alive.pop(j)
+    return events, alive[0]
